@@ -153,9 +153,10 @@ fn main() {
             }
             writeln!(s, "    }}\n}}").unwrap();
             // derived
-            writeln!(s, "fn derived_{name}<R: rand::RngCore>(a: &mut {name}, env: &mut {env_ty}, rng: &mut R) {{\n    {trait_path}::update(a, env, rng);\n}}").unwrap();
+            let (gen_params, env_ty) = if suffix == "M" { (", const MM: usize, const NN: usize", "bourse_de::MarketEnv<MM, NN>") } else { ("", env_ty) };
+            writeln!(s, "fn derived_{name}<R: rand::RngCore{gen_params}>(a: &mut {name}, env: &mut {env_ty}, rng: &mut R) {{\n    {trait_path}::update(a, env, rng);\n}}").unwrap();
             // hand-written flattened
-            writeln!(s, "fn hand_{name}<R: rand::RngCore>(a: &mut {name}, env: &mut {env_ty}, rng: &mut R) {{").unwrap();
+            writeln!(s, "fn hand_{name}<R: rand::RngCore{gen_params}>(a: &mut {name}, env: &mut {env_ty}, rng: &mut R) {{").unwrap();
             for (j, k) in w.chars().enumerate() {
                 match k {
                     'A' | 'B' | 'Z' => writeln!(s, "    a.{}.update(env, rng);", fname(j)).unwrap(),
@@ -172,11 +173,29 @@ fn main() {
         for (i, (w, dec)) in shapes.iter().enumerate() {
             let name = format!("Shape{suffix}{i}");
             let w = if *dec == "plain" { w.clone() } else { format!("{w} [{dec}]") };
-            writeln!(
-                s,
-                "    for &seed in seeds {{ let d = trace_{suffix}(seed, make_{name}, derived_{name}); let h = trace_{suffix}(seed, make_{name}, hand_{name}); f(\"{mac}\", \"{w}\", seed, d, h); }}"
-            )
-            .unwrap();
+            if suffix == "M" {
+                writeln!(
+                    s,
+                    "    for &seed in seeds {{ let d = trace_M::<_, 2, 3>(seed, make_{name}, derived_{name}); let h = trace_M::<_, 2, 3>(seed, make_{name}, hand_{name}); f(\"{mac}\", \"{w}\", seed, d, h); }}"
+                )
+                .unwrap();
+                // other market shapes (one asset and one level; three assets and NO published level) for the small plain shapes
+                if *dec == "plain" && w.chars().count() <= 3 {
+                    for (mm, nn) in [(1, 1), (3, 0)] {
+                        writeln!(
+                            s,
+                            "    for &seed in seeds {{ let d = trace_M::<_, {mm}, {nn}>(seed, make_{name}, derived_{name}); let h = trace_M::<_, {mm}, {nn}>(seed, make_{name}, hand_{name}); f(\"{mac}\", \"{w} on MarketEnv<{mm},{nn}>\", seed, d, h); }}"
+                        )
+                        .unwrap();
+                    }
+                }
+            } else {
+                writeln!(
+                    s,
+                    "    for &seed in seeds {{ let d = trace_{suffix}(seed, make_{name}, derived_{name}); let h = trace_{suffix}(seed, make_{name}, hand_{name}); f(\"{mac}\", \"{w}\", seed, d, h); }}"
+                )
+                .unwrap();
+            }
         }
         writeln!(s, "}}").unwrap();
     }
